@@ -40,6 +40,8 @@ where
     created: SystemTime,
     /// The set of indexed blob ids.
     indexed: Option<BTreeSet<(BlobType, BlobId)>>,
+    #[cfg(feature = "verif-hooks")]
+    max_count: usize,
 }
 
 impl<BE: DecryptWriteBackend> Indexer<BE> {
@@ -59,6 +61,8 @@ impl<BE: DecryptWriteBackend> Indexer<BE> {
             count: 0,
             created: SystemTime::now(),
             indexed: Some(BTreeSet::new()),
+            #[cfg(feature = "verif-hooks")]
+            max_count: crate::verif::index_flush_count().unwrap_or(constants::MAX_COUNT),
         }
     }
 
@@ -78,6 +82,8 @@ impl<BE: DecryptWriteBackend> Indexer<BE> {
             count: 0,
             created: SystemTime::now(),
             indexed: None,
+            #[cfg(feature = "verif-hooks")]
+            max_count: crate::verif::index_flush_count().unwrap_or(constants::MAX_COUNT),
         }
     }
 
@@ -170,6 +176,13 @@ impl<BE: DecryptWriteBackend> Indexer<BE> {
             warn!("couldn't get elapsed time from system time: {err:?}");
             Duration::ZERO
         });
+        // H6: behave as if MAX_AGE had passed once the per-thread flush count is reached
+        #[cfg(feature = "verif-hooks")]
+        let elapsed = if self.count >= self.max_count {
+            constants::MAX_AGE
+        } else {
+            elapsed
+        };
         if self.count >= constants::MAX_COUNT || elapsed >= constants::MAX_AGE {
             self.save()?;
             self.reset();
